@@ -164,6 +164,12 @@ func (a *AvailableCommands) Decode(c *proto.PacketContext, rd io.Reader) error {
 		wireNodes = append(wireNodes, wn)
 	}
 
+	// Children must form a tree: a node that is (directly or through its children) its own
+	// child makes the graph builder recurse without end. Only redirects may point backwards.
+	if err = checkChildrenAcyclic(wireNodes); err != nil {
+		return err
+	}
+
 	var ok bool
 	queue := append([]*WireNode{}, wireNodes...) // copy
 	// Iterate over the deserialized nodes and attempt to form a graph.
@@ -204,6 +210,47 @@ func (a *AvailableCommands) Decode(c *proto.PacketContext, rd io.Reader) error {
 	a.RootNode, ok = built.(*brigodier.RootCommandNode)
 	if !ok {
 		return fmt.Errorf("built node type is not *RootCommandNode (%T)", built)
+	}
+	return nil
+}
+
+// checkChildrenAcyclic reports an error if the child edges of the wire nodes contain a cycle
+// (iterative depth-first search; out-of-range indices are left to validate).
+func checkChildrenAcyclic(wireNodes []*WireNode) error {
+	const (
+		unseen = iota
+		open
+		done
+	)
+	state := make([]byte, len(wireNodes))
+	type frame struct{ node, next int }
+	for start := range wireNodes {
+		if state[start] != unseen {
+			continue
+		}
+		stack := []frame{{node: start}}
+		state[start] = open
+		for len(stack) != 0 {
+			top := &stack[len(stack)-1]
+			children := wireNodes[top.node].Children
+			if top.next == len(children) {
+				state[top.node] = done
+				stack = stack[:len(stack)-1]
+				continue
+			}
+			child := children[top.next]
+			top.next++
+			if child < 0 || child >= len(wireNodes) {
+				continue
+			}
+			switch state[child] {
+			case open:
+				return fmt.Errorf("command node %d is its own descendant", child)
+			case unseen:
+				state[child] = open
+				stack = append(stack, frame{node: child})
+			}
+		}
 	}
 	return nil
 }
